@@ -2,7 +2,7 @@
 import json, os, shutil
 import vlib
 
-C05_OPS = {"revcomp", "reverse", "set", "cloneprobe"}
+C05_OPS = {"revcomp", "reverse", "rowrevcomp", "rowreverse", "set", "cloneprobe", "emptyprobe"}
 NEGS = {"C05": ("MirrorAboutSpan", "ImplInvolution"), "C06a": ("TrimTracksStart", "PureLaws"), "C06b": ("FreshReverser", "PureLaws")}
 
 
@@ -20,6 +20,8 @@ def mc_cfg(kinds, rows, cols, off, edits, invariants, flags=None, view=True):
 def prop_of(e):
     if e["ev"] == "call":
         return "C06"
+    if e["ev"] == "emptyprobe":
+        return "C05"
     if e["ev"] == "reset":
         return "both"
     return "C05" if e.get("op") in C05_OPS else "C07"
@@ -84,7 +86,7 @@ def run_seq(ck, tier, pid):
     try:
         # (A) model level
         if pid in ("C05", "C07"):
-            inv = ["RevCompLaw", "RevCompInvolution", "ReverseTwice"] if pid == "C05" else \
+            inv = ["RevCompLaw", "RevCompInvolution", "ReverseTwice", "RowMirrorLaw"] if pid == "C05" else \
                   ["ShapeKept", "AppendLaw", "DeleteLaw", "FlushLaw", "CutLaw"]
             kinds = ["lin", "qlin", "aln", "qaln", "multi", "qmulti"]
             cfg = mc_cfg(kinds, 2, 2, 1, 2 if thorough else 1, inv)
